@@ -7,7 +7,7 @@ from vlib import *
 def run_active(pid, prefix, rule, assumptions, floor):
     c = Check(pid)
     exe = build_harness('asan', 'bus_driver', ['bus_driver.cpp', 'vbus.cpp'], wraps=WRAPS_BUS)
-    n = 40000 if c.thorough else 120
+    n = 120000 if c.thorough else 1000
     cmds = []
     for mode in ('c02', 'c03'):
         cmds += [[exe, 'mode=%s' % mode, 'filter=%s' % prefix, 'seed=%d' % (c.seed * 100 + i), 'n=%d' % n] for i in range(16)]
